@@ -51,6 +51,11 @@ CHECKS = {
         text='Theorems: begin-shutdown sets a monotone flag; while it is set no step creates or changes a pool; late requests and retries end with an error; a pending diff that completes gets its normal response; in every reachable state after begin every created pool has been handed to shutdown or killed. Tied by replaying, for 1-3 requests, every edge of the state graph that contains a shutdown (graceful, immediate, escalation) on the real coroutines. "No worker process left alive" is an OS fact: explored with real processes in the thorough tier, labelled exploration.',
         note='Trusted: as C07; executor.shutdown(wait=True) reaps workers and kill() breaks the pool (modelled).',
         design='5/C20'),
+    'C05': dict(
+        technique='Coq proof from the explicit contract of the native diff library (reconstruction, count, zero-iff-equal, text diff relative to the side-by-side texts, invariance under invisible content) + per-run validation of that contract + extracted-model correspondence (_get_visible_text) + observers',
+        text='Theorems: given the diff-match-patch contract (only =,-,+ operations; both arguments reconstructed; equal arguments give no change segment), the source diff reconstructs both inputs, change_count is the number of changed segments and is zero iff the texts are equal; the visible-text diff satisfies the same with respect to exactly the two texts the side-by-side view reports; text nodes under script/style/title/head never influence the visible text. The contract is validated on every generated pair (full Unicode classes, tiny time limit forcing the coarse path). The blank-line folding and visibility filter are modelled and run against _get_visible_text. The substance of reconstruction lives in the C++ library: mostly contract, and the evidence says so.',
+        note='Trusted: Coq kernel, gen_tables.py, extraction, harness. Oracle: fast_diff_match_patch.diff under contract DMP0-2; html5-parser/bs4 text-node extraction.',
+        design='5/C05'),
 }
 
 NOT_YET = {}
